@@ -283,7 +283,9 @@ theorem step_circ_cases [DecidableEq Tag] (C : Crypto Tag Sess Blob) (n : Node S
     | some req =>
       left
       simp only [step, onCreated, hcr]
-      split <;> exact h0
+      split
+      · exact h0
+      · split <;> exact h0
     | none =>
       exact answer cid' ident key auth cands env (Or.inl rfl) (by simp [step, onCreated, hcr])
   | extended cid' ident key auth cands env =>
@@ -363,7 +365,9 @@ theorem step_absent [DecidableEq Tag] (C : Crypto Tag Sess Blob) (n : Node Sess)
     cases hcr : n.creates ident with
     | some req =>
       simp only [step, onCreated, hcr]
-      split <;> exact h0
+      split
+      · exact h0
+      · split <;> exact h0
     | none =>
       simp only [step, onCreated, hcr]
       by_cases hc : cid' = cid
@@ -729,14 +733,6 @@ def entryKeys (n : Node Sess) (cid : Nat) : Option Sess :=
 /-- no circuit id is both an exit socket and a relay route -/
 def Disjoint (n : Node Sess) : Prop := ∀ cid, n.exits cid = none ∨ n.relays cid = none
 
-/-- the relay's fresh outgoing circuit id (`_generate_circuit_id`) of the pending extend that a CREATED event pairs
-    is not already one of the node's exit sockets or relay routes -/
-def FreshTo (n : Node Sess) : Ev Tag Blob → Prop
-  | .created _ ident _ _ _ _ =>
-    ∀ req, n.creates ident = some req → req.toCid ≠ req.fromCid →
-      n.exits req.toCid = none ∧ n.relays req.toCid = none
-  | _ => True
-
 /-- exits / relays after one step: only on_create (adds an exit socket under an unused id) and the relay branch of
     on_created (moves an exit socket to a pair of relay routes with the same keys) touch them -/
 theorem step_joined [DecidableEq Tag] (C : Crypto Tag Sess Blob) (n : Node Sess) (e : Ev Tag Blob) :
@@ -745,6 +741,7 @@ theorem step_joined [DecidableEq Tag] (C : Crypto Tag Sess Blob) (n : Node Sess)
       (step C n e).1.exits = upd n.exits cid (some h) ∧ (step C n e).1.relays = n.relays) ∨
     (∃ cid' ident key auth cands env req ex, e = .created cid' ident key auth cands env ∧
       n.creates ident = some req ∧ n.exits req.fromCid = some ex ∧
+      n.circuits req.toCid = none ∧ n.relays req.toCid = none ∧ n.exits req.toCid = none ∧
       (step C n e).1.exits = upd n.exits req.fromCid none ∧
       (step C n e).1.relays = upd (upd n.relays req.toCid (some ⟨req.fromCid, req.peer, ex.keys, false⟩))
         req.fromCid (some ⟨req.toCid, req.toPeer, ex.keys, true⟩)) := by
@@ -769,9 +766,14 @@ theorem step_joined [DecidableEq Tag] (C : Crypto Tag Sess Blob) (n : Node Sess)
       cases hex : n.exits req.fromCid with
       | none => left; simp [step, onCreated, hcr, hex]
       | some ex =>
-        right; right
-        refine ⟨cid, ident, key, auth, cands, env, req, ex, rfl, hcr, hex, ?_, ?_⟩ <;>
-          simp only [step, onCreated, hcr, hex]
+        by_cases hused : ((n.circuits req.toCid).isSome || (n.relays req.toCid).isSome ||
+            (n.exits req.toCid).isSome) = true
+        · left; simp [step, onCreated, hcr, hex, hused]
+        · right; right
+          have hu := hused
+          simp only [Bool.or_eq_true, not_or, Option.isSome_iff_ne_none, ne_eq, Classical.not_not] at hu
+          refine ⟨cid, ident, key, auth, cands, env, req, ex, rfl, hcr, hex, hu.1.1, hu.1.2, hu.2, ?_, ?_⟩ <;>
+            simp [step, onCreated, hcr, hex, hused]
   | extended cid ident key auth cands env => left; exact origin cid ident key auth cands env
   | retryTimeout cid env =>
     left; simp only [step, retryTimeout]; split <;> exact ⟨rfl, rfl⟩
@@ -805,10 +807,30 @@ theorem step_joined [DecidableEq Tag] (C : Crypto Tag Sess Blob) (n : Node Sess)
   | createdExpire cid => left; exact ⟨rfl, rfl⟩
   | createExpire number => left; exact ⟨rfl, rfl⟩
 
-/-- every step of a trace pairs only fresh outgoing circuit ids -/
-def RunFresh [DecidableEq Tag] (C : Crypto Tag Sess Blob) : Node Sess → List (Ev Tag Blob) → Prop
-  | _, [] => True
-  | n, e :: es => FreshTo n e ∧ RunFresh C (step C n e).1 es
+theorem originAnswer_creates [DecidableEq Tag] (C : Crypto Tag Sess Blob) (n : Node Sess) (cid ident : Nat)
+    (key : Option Wire) (auth : Tag) (cands : Blob) (env : Env) :
+    (originAnswer C n cid ident key auth cands env).1.creates = n.creates := by
+  unfold originAnswer
+  split
+  · rfl
+  · split
+    · rfl
+    · split <;> rfl
+
+theorem created_eq_extended [DecidableEq Tag] (C : Crypto Tag Sess Blob) (n : Node Sess) (cid ident : Nat)
+    (key : Option Wire) (auth : Tag) (cands : Blob) (env : Env) (hrel : n.creates ident = none) :
+    step C n (.created cid ident key auth cands env) = step C n (.extended cid ident key auth cands env) := by
+  simp [step, onCreated, onExtended, hrel]
+
+theorem resend_creates [DecidableEq Tag] (C : Crypto Tag Sess Blob) (n : Node Sess) (cid : Nat) (env : Env) (targets : List Key)
+    (tries : Int) :
+    (step C n (.retryTimeout cid env)).1.creates = n.creates ∧
+    (step C n (.sendExtend cid targets tries env)).1.creates = n.creates ∧
+    (step C n (.sendInitialCreate cid targets tries env)).1.creates = n.creates := by
+  refine ⟨?_, ?_, ?_⟩
+  · simp only [step, retryTimeout]; split <;> rfl
+  · simp only [step]; split <;> rfl
+  · simp only [step]; split <;> rfl
 
 
 end Ipv8.C08
